@@ -25,6 +25,7 @@ package ratelimit
 //@   modifies r.ring.cur, r.ring.full, elems(r.ring.buf), rlog[r.ring], rk[r.ring]
 //@   let ring = r.ring
 //@   ensures pushed: rk[ring] >= 1 && rlog[ring][rk[ring] - 1] == unixNano(t)
+//@   ensures counted-once: rk[ring] == locked(rk[ring]) + 1
 //@   ensures window-exact: isAbove == (rk[ring] >= len(ring.buf) && rlog[ring][rk[ring] - len(ring.buf)] > 0 &&
 //@             unixNano(t) - rlog[ring][rk[ring] - len(ring.buf)] <= r.ivl)
 
@@ -92,12 +93,23 @@ package ratelimit
 
 //@ fun allowedBy(al Allowlist, ip netip.Addr) bool
 
+// limChecks counts the events offered to the limiter (calls of
+// IsRateLimited); lastMsgLen is what the last size estimate of a message was
+// (this package's view of miekg's Msg.Len: some non-negative number).
+//@ ghost limChecks int
+//@ ghost lastMsgLen int
+//@ func (*dns.Msg).Len
+//@   modifies lastMsgLen
+//@   ensures result == lastMsgLen && result >= 0
+
 // IsRateLimited: the decision order of the property.
 //@ func (*Backoff).IsRateLimited
 //@   property C09
+//@   ghostset limChecks = limChecks + 1
+//@   ensures offered-once: limChecks == old(limChecks) + 1
 //@   requires BO(l) && req != nil && len(req.Question) >= 1
 //@   modifies chas[l.reqCounters.cache], cval[l.reqCounters.cache], chas[l.hitCounters.cache], cval[l.hitCounters.cache], allcells(atomic.Uint64), rk, rlog,
-//@            container.RingBuffer[int64].cur, container.RingBuffer[int64].full, allelems(int64)
+//@            container.RingBuffer[int64].cur, container.RingBuffer[int64].full, allelems(int64), limChecks
 //@   ensures BO(l)
 //@   ensures invalid-address-is-an-error: !addrValid(ip) ==> err != nil && !drop && !allowlisted
 //@   ensures any-refused-for-everyone: addrValid(ip) && l.refuseANY && old(req.Question[0].Qtype) == 255 ==> drop && !allowlisted && err == nil
@@ -114,9 +126,11 @@ package ratelimit
 //@   property C09 C20
 //@   requires BO(l) && resp != nil && len(resp.Question) >= 1 && l.respSzEst > 0
 //@   modifies chas[l.reqCounters.cache], cval[l.reqCounters.cache], chas[l.hitCounters.cache], cval[l.hitCounters.cache], allcells(atomic.Uint64), rk, rlog,
-//@            container.RingBuffer[int64].cur, container.RingBuffer[int64].full, allelems(int64)
+//@            container.RingBuffer[int64].cur, container.RingBuffer[int64].full, allelems(int64), limChecks, lastMsgLen
 //@   ensures BO(l)
-//@   loop 1 invariant BO(l) && len(resp.Question) >= 1
+//@   ensures a-large-response-counts-as-every-one-of-its-estimated-responses: limChecks == old(limChecks) + lastMsgLen / l.respSzEst
+//@   loop 1 invariant BO(l) && len(resp.Question) >= 1 && lastMsgLen >= 0
+//@   loop 1 invariant 0 <= #n && #n < lastMsgLen / l.respSzEst && limChecks == old(limChecks) + #n
 
 // window-exact: for a non-decreasing history, "the event n-1 positions before
 // the newest lies inside the interval" is the same as "the newest n events all
